@@ -62,11 +62,15 @@ func init() {
 	for _, n := range bin {
 		fnSpecs = append(fnSpecs, fnSpec{"protocol/thrift", "BinaryProtocol", n, "Binary_" + n})
 	}
+	fnSpecs = append(fnSpecs, fnSpec{"protocol/thrift", "BinaryProtocol", "Skip", "Binary_Skip"})
+	for _, n := range []string{"skipType", "skipstr", "p2i32"} {
+		fnSpecs = append(fnSpecs, fnSpec{"protocol/thrift", "", n, "thrift_" + n})
+	}
 	for _, n := range []string{"appendUint32", "appendUint64"} {
 		fnSpecs = append(fnSpecs, fnSpec{"protocol/thrift", "", n, "thrift_" + n})
 	}
 	for _, n := range []string{"Bytes2Uint32NoCheck", "Bytes2Uint16NoCheck", "Bytes2Uint8", "Bytes2Uint16", "ReadString2BLen",
-		"IsStreaming", "IsTTHeader"} {
+		"IsStreaming", "IsTTHeader", "readKVInfo", "readIntKVInfo", "readStrKVInfo", "readACLToken", "checkProtocolID"} {
 		fnSpecs = append(fnSpecs, fnSpec{"protocol/ttheader", "", n, "tth_" + n})
 	}
 }
@@ -81,6 +85,9 @@ const (
 	tBool
 	tBytes
 	tErr
+	tMapIB // map[<integer>]string / []byte
+	tMapBB // map[string]string
+	tPtr   // unsafe.Pointer into a byte slice: (bytes, offset); only as a parameter
 )
 
 func (t lty) String() string {
@@ -93,6 +100,10 @@ func (t lty) String() string {
 		return "Bytes"
 	case tErr:
 		return "GoErr"
+	case tMapIB:
+		return "(GoMap Int Bytes)"
+	case tMapBB:
+		return "(GoMap Bytes Bytes)"
 	}
 	return "?"
 }
@@ -107,6 +118,10 @@ func (t lty) zero() string {
 		return "([] : Bytes)"
 	case tErr:
 		return "GoErr.nil"
+	case tMapIB:
+		return "(none : GoMap Int Bytes)"
+	case tMapBB:
+		return "(none : GoMap Bytes Bytes)"
 	}
 	return "?"
 }
@@ -129,6 +144,8 @@ func leanType(t types.Type) lty {
 			return tInt
 		case u.Info()&types.IsString != 0:
 			return tBytes
+		case u.Kind() == types.UnsafePointer:
+			return tPtr
 		}
 	case *types.Slice:
 		if b, ok := u.Elem().Underlying().(*types.Basic); ok && b.Kind() == types.Uint8 {
@@ -138,8 +155,45 @@ func leanType(t types.Type) lty {
 		if t.String() == "error" {
 			return tErr
 		}
+	case *types.Map:
+		k, v := leanType(u.Key()), leanType(u.Elem())
+		if k == tInt && v == tBytes {
+			return tMapIB
+		}
+		if k == tBytes && v == tBytes {
+			return tMapBB
+		}
+	case *types.Pointer:
+		// *int … as an in/out parameter: the value
+		if leanType(u.Elem()) == tInt {
+			if _, _, ok := bitsOf(u.Elem()); ok {
+				return tInt
+			}
+		}
 	}
 	return tBad
+}
+
+// valType: the type of the value a variable stands for (an in/out pointer parameter stands for its pointee)
+func valType(t types.Type) types.Type {
+	if p, ok := t.Underlying().(*types.Pointer); ok && isIntPtr(t) {
+		return p.Elem()
+	}
+	return t
+}
+
+func isIntPtr(t types.Type) bool {
+	p, ok := t.Underlying().(*types.Pointer)
+	if !ok {
+		return false
+	}
+	_, _, ok = bitsOf(p.Elem())
+	return ok
+}
+
+func isMap(t types.Type) bool {
+	lt := leanType(t)
+	return lt == tMapIB || lt == tMapBB
 }
 
 func itName(t types.Type) (string, bool) {
@@ -164,6 +218,10 @@ type fnInfo struct {
 	globals  []string     // package-level bool variables read (directly or through callees), sorted
 	results  []lty
 	deps     []*fnInfo
+	selfrec  bool     // calls itself: defined by recursion on the fuel, loops take the recursive call as a parameter
+	fuel     bool     // has loops (directly or through callees): takes a leading `fuel : Nat`
+	pre      []string // loop functions, emitted before the function
+	nloops   int
 	text     string
 	why      string // non-empty: unsupported
 	done     bool
@@ -174,6 +232,7 @@ type ftr struct {
 	c      *ctx
 	all    map[*types.Func]*fnInfo
 	byName map[string]*fnInfo
+	tables map[string]string // package-level constant arrays used by translated functions: Lean name -> definition
 }
 
 type fctx struct {
@@ -187,6 +246,18 @@ type fctx struct {
 	named   []types.Object // named results
 	globals map[string]bool
 	deps    map[*fnInfo]bool
+	loop    *loopCtx // innermost enclosing loop (nil at function level)
+	fuel    bool
+	inSw    int // depth of enclosing switch statements inside the innermost loop
+}
+
+// a `for` loop becomes a recursive Lean function over fuel; its result is `LoopR ρ σ`: the enclosing function returns
+// (ret), or the loop is left normally with the values of the variables it modifies (done)
+type loopCtx struct {
+	name string
+	free []types.Object // variables of the enclosing function the loop reads (parameters of the loop function)
+	mods []types.Object // the ones it assigns (threaded through the recursion, returned on exit)
+	post ast.Stmt
 }
 
 type bail struct{ why string }
@@ -302,12 +373,41 @@ func (f *fctx) stmts(list []ast.Stmt, rest []ast.Stmt, depth int) []string {
 		case *ast.IncDecStmt:
 			f.incdec(b, st)
 		case *ast.EmptyStmt:
+		case *ast.ForStmt:
+			tail := append(append([]ast.Stmt{}, list[i+1:]...), rest...)
+			f.forStmt(b, st, tail, depth)
+			return b.lines
+		case *ast.SwitchStmt:
+			tail := append(append([]ast.Stmt{}, list[i+1:]...), rest...)
+			f.switchStmt(b, st, tail, depth)
+			return b.lines
+		case *ast.BranchStmt:
+			if st.Label != nil || f.loop == nil {
+				f.fail(s, "branch statement %s not supported here", st.Tok)
+			}
+			switch st.Tok {
+			case token.CONTINUE:
+				f.loopNext(b)
+			case token.BREAK:
+				if f.inSw > 0 {
+					f.fail(s, "break inside a switch")
+				}
+				b.add("pure (LoopR.done " + f.modTuple(f.loop) + ")")
+			default:
+				f.fail(s, "branch statement %s not supported", st.Tok)
+			}
+			return b.lines
 		default:
 			f.fail(s, "statement %T not supported", s)
 		}
 	}
 	if len(rest) > 0 {
 		b.lines = append(b.lines, f.stmts(rest, nil, depth+1)...)
+		return b.lines
+	}
+	if f.loop != nil {
+		// end of the loop body: post statement, next iteration
+		f.loopNext(b)
 		return b.lines
 	}
 	// fell off the end: only legal for a function without results
@@ -317,6 +417,462 @@ func (f *fctx) stmts(list []ast.Stmt, rest []ast.Stmt, depth int) []string {
 	}
 	f.fail(nil, "control reaches the end of a function with results")
 	return nil
+}
+
+// ---------------------------------------------------------------- loops and switch
+
+func (f *fctx) tyOf(o types.Object) string {
+	if f.views[o] || leanType(o.Type()) == tPtr {
+		return "Bytes"
+	}
+	return leanType(o.Type()).String()
+}
+
+// hasOff: the variable is a (bytes, offset) pair: a written-through slice or a pointer parameter
+func (f *fctx) hasOff(o types.Object) bool { return f.views[o] || leanType(o.Type()) == tPtr }
+
+// paramTypes: the Lean types of the function's parameters (without globals and fuel), for the `rec` parameter of loops
+func (f *fctx) paramTypes() []string {
+	sig := f.fi.obj.Type().(*types.Signature)
+	var ts []string
+	for i := 0; i < sig.Params().Len(); i++ {
+		p := sig.Params().At(i)
+		ts = append(ts, f.tyOf(p))
+		if f.hasOff(p) {
+			ts = append(ts, "Int")
+		}
+	}
+	return ts
+}
+
+func (f *fctx) recArg() string {
+	if f.loop != nil {
+		return "rec"
+	}
+	n := len(f.paramTypes())
+	var xs []string
+	for i := 0; i < n; i++ {
+		xs = append(xs, fmt.Sprintf("a%d", i))
+	}
+	return fmt.Sprintf("(fun %s => %s fuel %s)", strings.Join(xs, " "), f.fi.spec.lean, strings.Join(xs, " "))
+}
+
+func tupleOf(xs []string, unit string) string {
+	switch len(xs) {
+	case 0:
+		return unit
+	case 1:
+		return xs[0]
+	}
+	return "(" + strings.Join(xs, ", ") + ")"
+}
+
+func (f *fctx) modTuple(l *loopCtx) string {
+	var xs []string
+	for _, o := range l.mods {
+		xs = append(xs, f.nameOf(o))
+	}
+	return tupleOf(xs, "()")
+}
+
+func (f *fctx) retTypeStr() string {
+	var rts []string
+	sig := f.fi.obj.Type().(*types.Signature)
+	for i := 0; i < sig.Params().Len(); i++ {
+		if f.fi.mutated[i] {
+			rts = append(rts, f.tyOf(sig.Params().At(i)))
+		}
+	}
+	for _, r := range f.fi.results {
+		rts = append(rts, r.String())
+	}
+	if len(rts) == 0 {
+		return "Unit"
+	}
+	return strings.Join(rts, " × ")
+}
+
+// loopNext: the post statement, then the recursive call with the current values of the modified variables
+func (f *fctx) loopNext(b *blk) {
+	l := f.loop
+	if l.post != nil {
+		saved := f.loop
+		f.loop = nil // the post statement is a simple statement: translate it without loop control flow
+		switch st := l.post.(type) {
+		case *ast.IncDecStmt:
+			f.incdec(b, st)
+		case *ast.AssignStmt:
+			f.assign(b, st)
+		case *ast.ExprStmt:
+			f.exprStmt(b, st.X)
+		default:
+			f.fail(l.post, "loop post statement %T", l.post)
+		}
+		f.loop = saved
+	}
+	b.add(f.loopCall(l, "fuel"))
+}
+
+func (f *fctx) loopCall(l *loopCtx, fuel string) string {
+	var args []string
+	for g := range f.globals {
+		_ = g
+	}
+	if f.fi.selfrec {
+		args = append(args, f.recArg())
+	}
+	for _, o := range l.free {
+		if f.isMod(l, o) {
+			continue
+		}
+		args = append(args, f.nameOf(o))
+		if f.hasOff(o) {
+			args = append(args, f.nameOf(o)+"_off")
+		}
+	}
+	for _, o := range l.mods {
+		if f.hasOff(o) {
+			args = append(args, f.nameOf(o)+"_off")
+		}
+	}
+	args = append(args, fuel)
+	for _, o := range l.mods {
+		args = append(args, f.nameOf(o))
+	}
+	return l.name + " " + strings.Join(args, " ")
+}
+
+func (f *fctx) isMod(l *loopCtx, o types.Object) bool {
+	for _, m := range l.mods {
+		if m == o {
+			return true
+		}
+	}
+	return false
+}
+
+// assignedIn: objects assigned anywhere inside the nodes (plain assignment, op=, ++/--, stores through a view,
+// *p = …, map stores, in/out arguments of calls)
+func (f *fctx) assignedIn(nodes ...ast.Node) map[types.Object]bool {
+	info := f.pk.TypesInfo
+	out := map[types.Object]bool{}
+	base := func(e ast.Expr) types.Object {
+		e = stripParens(e)
+		for {
+			switch x := e.(type) {
+			case *ast.StarExpr:
+				e = stripParens(x.X)
+				continue
+			case *ast.IndexExpr:
+				e = stripParens(x.X)
+				continue
+			case *ast.SliceExpr:
+				e = stripParens(x.X)
+				continue
+			case *ast.UnaryExpr:
+				if x.Op == token.AND {
+					e = stripParens(x.X)
+					continue
+				}
+			}
+			break
+		}
+		if id, ok := e.(*ast.Ident); ok {
+			if o := info.Uses[id]; o != nil {
+				return o
+			}
+			return info.Defs[id]
+		}
+		return nil
+	}
+	for _, n := range nodes {
+		if n == nil {
+			continue
+		}
+		ast.Inspect(n, func(n ast.Node) bool {
+			switch x := n.(type) {
+			case *ast.AssignStmt:
+				for _, l := range x.Lhs {
+					if o := base(l); o != nil {
+						out[o] = true
+					}
+				}
+			case *ast.IncDecStmt:
+				if o := base(x.X); o != nil {
+					out[o] = true
+				}
+			case *ast.CallExpr:
+				// any argument that is a view, a map, &x or an in/out pointer may be written by the callee
+				for _, a := range x.Args {
+					if o := base(a); o != nil {
+						if v, ok := o.(*types.Var); ok && (f.views[o] || isMap(v.Type()) || isIntPtr(v.Type())) {
+							out[o] = true
+						} else if u, ok := stripParens(a).(*ast.UnaryExpr); ok && u.Op == token.AND {
+							out[o] = true
+						}
+					}
+				}
+			}
+			return true
+		})
+	}
+	return out
+}
+
+func (f *fctx) forStmt(b *blk, st *ast.ForStmt, tail []ast.Stmt, depth int) {
+	info := f.pk.TypesInfo
+	if st.Init != nil {
+		lines := f.stmts([]ast.Stmt{st.Init, &ast.ForStmt{For: st.For, Cond: st.Cond, Post: st.Post, Body: st.Body}}, tail, depth+1)
+		b.lines = append(b.lines, lines...)
+		return
+	}
+	f.fuel = true
+	// free variables: function-level variables declared before the body and referenced in cond / post / body
+	seen := map[types.Object]bool{}
+	var free []types.Object
+	visit := func(n ast.Node) {
+		if n == nil {
+			return
+		}
+		ast.Inspect(n, func(n ast.Node) bool {
+			id, ok := n.(*ast.Ident)
+			if !ok {
+				return true
+			}
+			o, ok := info.Uses[id].(*types.Var)
+			if !ok || o.Pkg() == nil || o.Parent() == o.Pkg().Scope() || o.IsField() {
+				return true
+			}
+			if o.Pos() >= st.Body.Lbrace || seen[o] {
+				return true
+			}
+			if _, known := f.names[o]; !known {
+				return true
+			}
+			seen[o] = true
+			free = append(free, o)
+			return true
+		})
+	}
+	visit(st.Cond)
+	visit(st.Post)
+	visit(st.Body)
+	sort.Slice(free, func(i, j int) bool { return free[i].Pos() < free[j].Pos() })
+	asg := f.assignedIn(st.Post, st.Body)
+	var mods []types.Object
+	for _, o := range free {
+		if asg[o] {
+			mods = append(mods, o)
+		}
+	}
+	f.fi.nloops++
+	l := &loopCtx{name: fmt.Sprintf("%s_loop%d", f.fi.spec.lean, f.fi.nloops), free: free, mods: mods, post: st.Post}
+	// the loop function
+	var params []string
+	if f.fi.selfrec {
+		params = append(params, fmt.Sprintf("(rec : %s → GM (%s))", strings.Join(f.paramTypes(), " → "), f.retTypeStr()))
+	}
+	for _, o := range free {
+		if f.isMod(l, o) {
+			continue
+		}
+		params = append(params, fmt.Sprintf("(%s : %s)", f.nameOf(o), f.tyOf(o)))
+		if f.hasOff(o) {
+			params = append(params, fmt.Sprintf("(%s_off : Int)", f.nameOf(o)))
+		}
+	}
+	var mtys, mnames []string
+	for _, o := range mods {
+		mtys = append(mtys, f.tyOf(o))
+		mnames = append(mnames, f.nameOf(o))
+		if f.hasOff(o) {
+			// the offset of a view never changes: it is a fixed parameter
+			params = append(params, fmt.Sprintf("(%s_off : Int)", f.nameOf(o)))
+		}
+	}
+	sigma := "Unit"
+	if len(mtys) > 0 {
+		sigma = strings.Join(mtys, " × ")
+	}
+	savedLoop, savedSw := f.loop, f.inSw
+	f.loop, f.inSw = l, 0
+	nglob := len(f.globals)
+	body := &blk{}
+	if st.Cond != nil {
+		cond := f.boolExpr(body, st.Cond)
+		inner := f.stmts(st.Body.List, nil, depth+1)
+		body.add("if " + cond + " then do")
+		body.add(strings.TrimRight(indent(inner, 1), "\n"))
+		body.add("else do")
+		body.add("  pure (LoopR.done " + f.modTuple(l) + ")")
+	} else {
+		body.lines = append(body.lines, f.stmts(st.Body.List, nil, depth+1)...)
+	}
+	f.loop, f.inSw = savedLoop, savedSw
+	if len(f.globals) != nglob {
+		f.fail(st, "package-level variable read inside a loop")
+	}
+	var sb strings.Builder
+	pos := f.pk.Fset.Position(st.For)
+	fmt.Fprintf(&sb, "/-- the `for` loop at %s:%d of %s (fuel = an upper bound on the number of iterations) -/\n", filepath.Base(pos.Filename), pos.Line, f.fi.spec.name)
+	gp := ""
+	// package-level bool parameters are appended by the caller through f.globals: loops read them as ordinary names
+	fmt.Fprintf(&sb, "def %s %s%s: Nat → %s → GM (LoopR (%s) (%s))\n", l.name, gp, strings.Join(params, " ")+" ", strings.Join(append([]string{}, mtysOrUnit(mtys)...), " → "), f.retTypeStr(), sigma)
+	fmt.Fprintf(&sb, "  | 0, %s => .panic \"nofuel\"\n", strings.Join(underscores(len(mtysOrUnit(mtys))), ", "))
+	fmt.Fprintf(&sb, "  | fuel+1, %s => do\n", strings.Join(namesOrUnit(mnames), ", "))
+	sb.WriteString(indent(body.lines, 2))
+	f.fi.pre = append(f.fi.pre, sb.String())
+	// the call site
+	t := f.fresh()
+	call := f.loopCall(l, "fuel")
+	if len(mods) == 0 {
+		call += " ()"
+	}
+	b.add(fmt.Sprintf("let %s ← %s", t, call))
+	b.add("match " + t + " with")
+	b.add("| LoopR.ret r => " + f.wrapRet("r"))
+	if st.Cond == nil && !hasBreak(st.Body) {
+		// `for { … }` without break: the loop is only left by return
+		b.add("| LoopR.done _ => .panic \"unreachable\"")
+		return
+	}
+	after := &blk{}
+	for k, o := range mods {
+		after.add(fmt.Sprintf("let %s := %s", f.nameOf(o), projOf("s", k, len(mods))))
+	}
+	after.lines = append(after.lines, f.stmts(tail, nil, depth+1)...)
+	b.add("| LoopR.done s => do")
+	b.add(strings.TrimRight(indent(after.lines, 1), "\n"))
+}
+
+// hasBreak: a `break` that leaves this loop (not one nested in an inner loop or switch)
+func hasBreak(body *ast.BlockStmt) bool {
+	found := false
+	var walk func(n ast.Node, inner bool)
+	walk = func(n ast.Node, inner bool) {
+		ast.Inspect(n, func(n ast.Node) bool {
+			switch x := n.(type) {
+			case *ast.ForStmt, *ast.RangeStmt, *ast.SwitchStmt, *ast.TypeSwitchStmt, *ast.SelectStmt:
+				if n != ast.Node(body) {
+					return false
+				}
+			case *ast.BranchStmt:
+				if x.Tok == token.BREAK {
+					found = true
+				}
+			}
+			return true
+		})
+	}
+	walk(body, false)
+	return found
+}
+
+func mtysOrUnit(xs []string) []string {
+	if len(xs) == 0 {
+		return []string{"Unit"}
+	}
+	return xs
+}
+func namesOrUnit(xs []string) []string {
+	if len(xs) == 0 {
+		return []string{"_"}
+	}
+	return xs
+}
+func underscores(n int) []string {
+	var r []string
+	for i := 0; i < n; i++ {
+		r = append(r, "_")
+	}
+	return r
+}
+
+func projOf(t string, k, total int) string {
+	if total == 1 {
+		return t
+	}
+	s := t
+	for j := 0; j < k; j++ {
+		s += ".2"
+	}
+	if k < total-1 {
+		s += ".1"
+	}
+	return s
+}
+
+// wrapRet: `pure x` at function level, `pure (LoopR.ret x)` inside a loop function
+func (f *fctx) wrapRet(x string) string {
+	if f.loop != nil {
+		return "pure (LoopR.ret " + atom(x) + ")"
+	}
+	return "pure " + atom(x)
+}
+
+func (f *fctx) switchStmt(b *blk, st *ast.SwitchStmt, tail []ast.Stmt, depth int) {
+	if st.Init != nil {
+		inner := *st
+		inner.Init = nil
+		b.lines = append(b.lines, f.stmts([]ast.Stmt{st.Init, &inner}, tail, depth+1)...)
+		return
+	}
+	tag := ""
+	var tagType types.Type
+	if st.Tag != nil {
+		tagType = f.pk.TypesInfo.TypeOf(st.Tag)
+		v := f.expr(b, st.Tag)
+		tag = f.fresh()
+		b.add("let " + tag + " := " + v)
+	}
+	var clauses []*ast.CaseClause
+	var def *ast.CaseClause
+	for _, c := range st.Body.List {
+		cc := c.(*ast.CaseClause)
+		if cc.List == nil {
+			def = cc
+		} else {
+			clauses = append(clauses, cc)
+		}
+		for _, s := range cc.Body {
+			if br, ok := s.(*ast.BranchStmt); ok && br.Tok == token.FALLTHROUGH {
+				f.fail(s, "fallthrough")
+			}
+		}
+	}
+	f.inSw++
+	defer func() { f.inSw-- }()
+	var gen func(k int) []string
+	gen = func(k int) []string {
+		if k == len(clauses) {
+			if def != nil {
+				return f.stmts(def.Body, tail, depth+1)
+			}
+			return f.stmts(nil, tail, depth+1)
+		}
+		cc := clauses[k]
+		cb := &blk{}
+		var conds []string
+		for _, e := range cc.List {
+			if f.canPanic(e) {
+				f.fail(e, "case expression that can panic")
+			}
+			if tag != "" {
+				conds = append(conds, fmt.Sprintf("decide (%s = %s)", tag, atom(f.exprAs(cb, e, tagType))))
+			} else {
+				conds = append(conds, f.boolExpr(cb, e))
+			}
+		}
+		cond := strings.Join(conds, " || ")
+		thenL := f.stmts(cc.Body, tail, depth+1)
+		elseL := gen(k + 1)
+		cb.add("if " + cond + " then do")
+		cb.add(strings.TrimRight(indent(thenL, 1), "\n"))
+		cb.add("else do")
+		cb.add(strings.TrimRight(indent(elseL, 1), "\n"))
+		return cb.lines
+	}
+	b.lines = append(b.lines, gen(0)...)
 }
 
 func (f *fctx) ifStmt(b *blk, st *ast.IfStmt, tail []ast.Stmt, depth int) {
@@ -361,11 +917,11 @@ func (f *fctx) pureResult(b *blk, vals []string) {
 	parts = append(parts, vals...)
 	switch len(parts) {
 	case 0:
-		b.add("pure ()")
+		b.add(f.wrapRet("()"))
 	case 1:
-		b.add("pure " + atom(parts[0]))
+		b.add(f.wrapRet(parts[0]))
 	default:
-		b.add("pure (" + strings.Join(parts, ", ") + ")")
+		b.add(f.wrapRet("(" + strings.Join(parts, ", ") + ")"))
 	}
 }
 
@@ -405,7 +961,16 @@ func (f *fctx) bind(b *blk, o types.Object, val string) {
 }
 
 func (f *fctx) lhsObj(e ast.Expr) types.Object {
-	id, ok := stripParens(e).(*ast.Ident)
+	e = stripParens(e)
+	if st, ok := e.(*ast.StarExpr); ok { // *p = … with p an in/out pointer parameter
+		if id, ok := stripParens(st.X).(*ast.Ident); ok {
+			if o := f.pk.TypesInfo.Uses[id]; o != nil && isIntPtr(o.Type()) {
+				return o
+			}
+		}
+		return nil
+	}
+	id, ok := e.(*ast.Ident)
 	if !ok {
 		return nil
 	}
@@ -436,10 +1001,12 @@ func (f *fctx) assign(b *blk, st *ast.AssignStmt) {
 				var want types.Type
 				if id, ok := stripParens(st.Lhs[i]).(*ast.Ident); ok && id.Name != "_" {
 					if o := f.lhsObj(st.Lhs[i]); o != nil {
-						want = o.Type()
+						want = valType(o.Type())
 					}
 				} else if !ok {
-					f.fail(st, "assignment target %T not supported", st.Lhs[i])
+					if f.lhsObj(st.Lhs[i]) == nil {
+						f.fail(st, "assignment target %T not supported", st.Lhs[i])
+					}
 				}
 				if want == nil {
 					want = info.TypeOf(r)
@@ -470,7 +1037,7 @@ func (f *fctx) assign(b *blk, st *ast.AssignStmt) {
 			}
 			vals := f.callMulti(b, call, len(st.Lhs))
 			for i, l := range st.Lhs {
-				if _, ok := stripParens(l).(*ast.Ident); !ok {
+				if _, ok := stripParens(l).(*ast.Ident); !ok && f.lhsObj(l) == nil {
 					f.fail(st, "assignment target %T not supported", l)
 				}
 				o := f.lhsObj(l)
@@ -509,8 +1076,8 @@ func (f *fctx) assign(b *blk, st *ast.AssignStmt) {
 			f.fail(st, "operator %s not supported", st.Tok)
 		}
 		l := f.expr(b, st.Lhs[0])
-		r := f.exprAs(b, st.Rhs[0], o.Type())
-		f.bind(b, o, f.arith(st, op, o.Type(), l, r))
+		r := f.exprAs(b, st.Rhs[0], valType(o.Type()))
+		f.bind(b, o, f.arith(st, op, valType(o.Type()), l, r))
 	}
 }
 
@@ -523,7 +1090,7 @@ func (f *fctx) incdec(b *blk, st *ast.IncDecStmt) {
 	if st.Tok == token.DEC {
 		op = token.SUB
 	}
-	f.bind(b, o, f.arith(st, op, o.Type(), f.nameOf(o), "1"))
+	f.bind(b, o, f.arith(st, op, valType(o.Type()), f.nameOf(o), "1"))
 }
 
 func (f *fctx) decl(b *blk, st *ast.DeclStmt) {
@@ -596,6 +1163,14 @@ func (f *fctx) store(b *blk, ix *ast.IndexExpr, rhs ast.Expr) {
 		f.fail(ix, "store target")
 	}
 	o := f.pk.TypesInfo.Uses[id]
+	if o != nil && isMap(o.Type()) {
+		mt := o.Type().Underlying().(*types.Map)
+		k := f.exprAs(b, ix.Index, mt.Key())
+		v := f.exprAs(b, rhs, mt.Elem())
+		n := f.nameOf(o)
+		b.add(fmt.Sprintf("let %s ← mapSet %s %s %s", n, n, atom(k), atom(v)))
+		return
+	}
 	if o == nil || !f.views[o] {
 		f.fail(ix, "store into something that is not a written-through parameter")
 	}
@@ -603,6 +1178,70 @@ func (f *fctx) store(b *blk, ix *ast.IndexExpr, rhs ast.Expr) {
 	v := f.exprAs(b, rhs, types.Typ[types.Uint8])
 	n := f.nameOf(o)
 	b.add(fmt.Sprintf("let %s ← vset %s %s_off %s %s", n, n, n, atom(i), atom(v)))
+}
+
+// ptrExpr: an unsafe.Pointer-valued expression as (bytes, offset): a pointer parameter, unsafe.Add(p, k),
+// unsafe.Pointer(&b[0])
+func (f *fctx) ptrExpr(b *blk, e ast.Expr) (string, string) {
+	info := f.pk.TypesInfo
+	e = stripParens(e)
+	switch x := e.(type) {
+	case *ast.Ident:
+		if o := info.Uses[x]; o != nil && leanType(o.Type()) == tPtr {
+			if _, ok := f.names[o]; ok {
+				return f.nameOf(o), f.nameOf(o) + "_off"
+			}
+		}
+	case *ast.CallExpr:
+		recv, name := f.selName(x)
+		if recv == "unsafe" && name == "Add" && len(x.Args) == 2 {
+			bs, off := f.ptrExpr(b, x.Args[0])
+			k := f.expr(b, x.Args[1])
+			return bs, fmt.Sprintf("(wrap .i64 (%s + %s))", atom(off), atom(k))
+		}
+		if recv == "unsafe" && name == "Pointer" && len(x.Args) == 1 {
+			// unsafe.Pointer(&s[0]): the address of the first byte (index panic on an empty slice)
+			if u, ok := stripParens(x.Args[0]).(*ast.UnaryExpr); ok && u.Op == token.AND {
+				if ix, ok := stripParens(u.X).(*ast.IndexExpr); ok && leanType(info.TypeOf(ix.X)) == tBytes {
+					if v, ok := constInt(f.pk, ix.Index); ok && v == 0 {
+						s := f.expr(b, ix.X)
+						t := f.fresh()
+						b.add(fmt.Sprintf("let %s ← idx %s 0", t, atom(s)))
+						return atom(s), "0"
+					}
+				}
+			}
+		}
+	}
+	f.fail(e, "pointer expression %s not supported", f.src(e))
+	return "", ""
+}
+
+// derefByte: `*(*byte)(ptr)`
+func (f *fctx) derefByte(e ast.Expr) (ast.Expr, bool) {
+	st, ok := stripParens(e).(*ast.StarExpr)
+	if !ok {
+		return nil, false
+	}
+	call, ok := stripParens(st.X).(*ast.CallExpr)
+	if !ok || len(call.Args) != 1 {
+		return nil, false
+	}
+	tv, ok := f.pk.TypesInfo.Types[call.Fun]
+	if !ok || !tv.IsType() {
+		return nil, false
+	}
+	pt, ok := tv.Type.Underlying().(*types.Pointer)
+	if !ok {
+		return nil, false
+	}
+	if bb, ok := pt.Elem().Underlying().(*types.Basic); !ok || bb.Kind() != types.Uint8 {
+		return nil, false
+	}
+	if leanType(f.pk.TypesInfo.TypeOf(call.Args[0])) != tPtr {
+		return nil, false
+	}
+	return call.Args[0], true
 }
 
 var putFns = map[string]string{"PutUint16": "vputU16", "PutUint32": "vputU32", "PutUint64": "vputU64"}
@@ -726,6 +1365,8 @@ func (f *fctx) exprAs(b *blk, e ast.Expr, want types.Type) string {
 			return "GoErr.nil"
 		case tBytes:
 			return "([] : Bytes)"
+		case tMapIB, tMapBB:
+			return leanType(want).zero()
 		}
 		f.fail(e, "nil of type %s", want)
 	}
@@ -808,6 +1449,19 @@ func (f *fctx) expr(b *blk, e ast.Expr) string {
 			return "(GoErr.named " + leanStr(o.Pkg().Name()+"."+o.Name()) + ")"
 		}
 		f.fail(e, "selector %s not supported", f.src(e))
+	case *ast.StarExpr:
+		if id, ok := stripParens(x.X).(*ast.Ident); ok {
+			if o := info.Uses[id]; o != nil && isIntPtr(o.Type()) {
+				return f.nameOf(o)
+			}
+		}
+		if pe, ok := f.derefByte(x); ok {
+			bs, off := f.ptrExpr(b, pe)
+			t := f.fresh()
+			b.add(fmt.Sprintf("let %s ← uload %s %s", t, bs, atom(off)))
+			return t
+		}
+		f.fail(e, "dereference not supported")
 	case *ast.UnaryExpr:
 		switch x.Op {
 		case token.NOT:
@@ -844,6 +1498,20 @@ func (f *fctx) expr(b *blk, e ast.Expr) string {
 				t := f.fresh()
 				b.add(fmt.Sprintf("let %s ← vidx %s %s_off %s", t, f.nameOf(o), f.nameOf(o), atom(i)))
 				return t
+			}
+		}
+		if id, ok := base.(*ast.Ident); ok {
+			// a package-level array of integer constants (typeToSize): its entries are regenerated too
+			if v, ok := info.Uses[id].(*types.Var); ok && v.Pkg() != nil && v.Parent() == v.Pkg().Scope() {
+				if at, ok := v.Type().Underlying().(*types.Array); ok {
+					if _, _, isInt := bitsOf(at.Elem()); isInt {
+						name := f.t.table(f, x, v, int(at.Len()))
+						i := f.expr(b, x.Index)
+						t := f.fresh()
+						b.add(fmt.Sprintf("let %s ← tblIdx %s %s", t, name, atom(i)))
+						return t
+					}
+				}
 			}
 		}
 		if leanType(info.TypeOf(x.X)) != tBytes {
@@ -957,6 +1625,21 @@ func (t *ftr) errValue(f *fctx, at ast.Node, v *types.Var) string {
 		}
 	}
 	return "(GoErr.named " + leanStr(v.Pkg().Name()+"."+v.Name()) + ")"
+}
+
+// table: a package-level array of integer constants becomes a Lean list (all entries, evaluated by the type checker)
+func (t *ftr) table(f *fctx, at ast.Node, v *types.Var, size int) string {
+	name := "tbl_" + v.Name()
+	if _, ok := t.tables[name]; ok {
+		return name
+	}
+	rel := strings.TrimPrefix(v.Pkg().Path(), mod)
+	vals := t.c.arrayTable(rel, v.Name(), size)
+	if len(vals) != size {
+		f.fail(at, "table %s could not be evaluated", v.Name())
+	}
+	t.tables[name] = fmt.Sprintf("/-- %s.%s, all %d entries -/\ndef %s : List Int := %s\n", rel, v.Name(), size, name, intList(vals))
+	return name
 }
 
 func (f *fctx) conversion(b *blk, call *ast.CallExpr, to types.Type) string {
@@ -1125,6 +1808,10 @@ func (f *fctx) callMulti(b *blk, call *ast.CallExpr, n int) []string {
 			return []string{fmt.Sprintf("appendInts %s [%s]", atom(base), strings.Join(xs, ", "))}
 		case "copy":
 			return []string{f.copyCall(b, call)}
+		case "make":
+			if lt := leanType(info.TypeOf(call)); (lt == tMapIB || lt == tMapBB) && len(call.Args) == 1 {
+				return []string{"(some [] : " + strings.Trim(lt.String(), "()") + ")"}
+			}
 		}
 		f.fail(call, "builtin %s not supported", name)
 	}
@@ -1140,6 +1827,37 @@ func (f *fctx) callMulti(b *blk, call *ast.CallExpr, n int) []string {
 				f.fail(call, "PutUint shape")
 			}
 			return nil
+		}
+	}
+	if (recv == "fmt" && name == "Errorf") || (recv == "errors" && name == "New") {
+		// an error value made on the spot: opaque, identified by its format string (the arguments only feed the text)
+		ftv := info.Types[call.Args[0]]
+		if ftv.Value == nil || ftv.Value.Kind() != constant.String {
+			f.fail(call, "error format is not a constant")
+		}
+		for _, a := range call.Args[1:] {
+			if f.canPanic(a) {
+				if c, ok := stripParens(a).(*ast.CallExpr); ok {
+					if sel, ok := c.Fun.(*ast.SelectorExpr); ok && sel.Sel.Name == "Error" && len(c.Args) == 0 {
+						continue
+					}
+				}
+				f.fail(a, "argument of %s.%s that can panic", recv, name)
+			}
+		}
+		return []string{"(GoErr.named " + leanStr(recv+"."+name+":"+constant.StringVal(ftv.Value)) + ")"}
+	}
+	if recv == "" && name == "NewProtocolException" && len(call.Args) == 2 {
+		if id, ok := constInt(f.pk, call.Args[0]); ok {
+			msg := ""
+			if mtv := info.Types[call.Args[1]]; mtv.Value != nil && mtv.Value.Kind() == constant.String {
+				msg = constant.StringVal(mtv.Value)
+			} else if f.canPanic(call.Args[1]) {
+				if c, ok := stripParens(call.Args[1]).(*ast.CallExpr); !ok || func() bool { r, n := f.selName(c); return !(r == "fmt" && n == "Sprintf") }() {
+					f.fail(call, "NewProtocolException text that can panic")
+				}
+			}
+			return []string{fmt.Sprintf("(GoErr.pe %d %s)", id, leanStr(msg))}
 		}
 	}
 	if recv == "math" && (name == "Float64bits" || name == "Float64frombits") && len(call.Args) == 1 {
@@ -1167,21 +1885,48 @@ func (f *fctx) callMulti(b *blk, call *ast.CallExpr, n int) []string {
 	if ci == nil {
 		f.fail(call, "call of %s, which is not a translated function", callee.FullName())
 	}
-	f.t.translate(ci)
-	if ci.why != "" {
-		f.fail(call, "callee %s unsupported", ci.spec.lean)
-	}
-	f.deps[ci] = true
-	for _, g := range ci.globals {
-		f.globals[g] = true
+	self := ci == f.fi
+	if !self {
+		f.t.translate(ci)
+		if ci.why != "" {
+			f.fail(call, "callee %s unsupported", ci.spec.lean)
+		}
+		f.deps[ci] = true
+		for _, g := range ci.globals {
+			f.globals[g] = true
+		}
 	}
 	var args []string
 	for _, g := range ci.globals {
 		args = append(args, "g_"+g)
 	}
+	if ci.fuel || self {
+		f.fuel = true
+		if !(self && f.loop != nil) {
+			args = append(args, "fuel")
+		}
+	}
 	sig := callee.Type().(*types.Signature)
 	var mutObjs []types.Object
 	for i, a := range call.Args {
+		if ci.mutated[i] && leanType(sig.Params().At(i).Type()) != tBytes {
+			// in/out value (a *int or a map): `&x`, or a pointer / map variable passed through
+			ae := stripParens(a)
+			if u, ok := ae.(*ast.UnaryExpr); ok && u.Op == token.AND {
+				ae = stripParens(u.X)
+			}
+			id, ok := ae.(*ast.Ident)
+			if !ok {
+				f.fail(call, "argument %d of %s must be a variable", i, ci.spec.lean)
+			}
+			o := info.Uses[id]
+			if o == nil {
+				f.fail(call, "argument %d of %s", i, ci.spec.lean)
+			}
+			args = append(args, f.nameOf(o))
+			mutObjs = append(mutObjs, o)
+			continue
+		}
 		if ci.mutated[i] {
 			o, off, ok := f.viewOf(b, a)
 			if !ok {
@@ -1191,10 +1936,19 @@ func (f *fctx) callMulti(b *blk, call *ast.CallExpr, n int) []string {
 			mutObjs = append(mutObjs, o)
 			continue
 		}
+		if leanType(sig.Params().At(i).Type()) == tPtr {
+			bs, off := f.ptrExpr(b, a)
+			args = append(args, bs, atom(off))
+			continue
+		}
 		args = append(args, atom(f.exprAs(b, a, sig.Params().At(i).Type())))
 	}
 	t := f.fresh()
-	b.add(fmt.Sprintf("let %s ← %s %s", t, ci.spec.lean, strings.Join(args, " ")))
+	fn := ci.spec.lean
+	if self && f.loop != nil {
+		fn = "rec"
+	}
+	b.add(fmt.Sprintf("let %s ← %s %s", t, fn, strings.Join(args, " ")))
 	total := len(mutObjs) + len(ci.results)
 	proj := func(k int) string {
 		if total == 1 {
@@ -1229,6 +1983,9 @@ func findMutated(pk *packages.Package, fd *ast.FuncDecl, sig *types.Signature, t
 	idx := map[types.Object]int{}
 	for i := 0; i < sig.Params().Len(); i++ {
 		idx[sig.Params().At(i)] = i
+		if isIntPtr(sig.Params().At(i).Type()) || isMap(sig.Params().At(i).Type()) {
+			mut[i] = true
+		}
 	}
 	baseObj := func(e ast.Expr) (types.Object, bool) {
 		e = stripParens(e)
@@ -1299,6 +2056,14 @@ func (t *ftr) prepare(fi *fnInfo) {
 	fi.mutated = map[int]bool{} // cycle guard
 	sig := fi.obj.Type().(*types.Signature)
 	fi.mutated = findMutated(fi.pk, fi.fd, sig, t)
+	ast.Inspect(fi.fd.Body, func(n ast.Node) bool {
+		if c, ok := n.(*ast.CallExpr); ok {
+			if id, ok := stripParens(c.Fun).(*ast.Ident); ok && fi.pk.TypesInfo.Uses[id] == types.Object(fi.obj) {
+				fi.selfrec = true
+			}
+		}
+		return true
+	})
 }
 
 func (t *ftr) translate(fi *fnInfo) {
@@ -1325,6 +2090,9 @@ func (t *ftr) translate(fi *fnInfo) {
 		panic(bail{"function not found"})
 	}
 	t.prepare(fi)
+	if fi.selfrec {
+		fi.fuel = true
+	}
 	sig := fi.obj.Type().(*types.Signature)
 	f := &fctx{t: t, fi: fi, pk: fi.pk, names: map[types.Object]string{}, used: map[string]int{}, views: map[types.Object]bool{},
 		globals: map[string]bool{}, deps: map[*fnInfo]bool{}}
@@ -1339,11 +2107,10 @@ func (t *ftr) translate(fi *fnInfo) {
 			f.fail(fi.fd, "parameter %s of type %s not supported", p.Name(), p.Type())
 		}
 		n := f.nameOf(p)
-		if fi.mutated[i] {
-			if lt != tBytes {
-				f.fail(fi.fd, "written-through parameter of type %s", p.Type())
-			}
+		if fi.mutated[i] && lt == tBytes {
 			f.views[p] = true
+			params = append(params, fmt.Sprintf("(%s : Bytes) (%s_off : Int)", n, n))
+		} else if lt == tPtr {
 			params = append(params, fmt.Sprintf("(%s : Bytes) (%s_off : Int)", n, n))
 		} else {
 			params = append(params, fmt.Sprintf("(%s : %s)", n, lt))
@@ -1353,7 +2120,7 @@ func (t *ftr) translate(fi *fnInfo) {
 	var rts []string
 	for i := 0; i < sig.Params().Len(); i++ {
 		if fi.mutated[i] {
-			rts = append(rts, "Bytes")
+			rts = append(rts, f.tyOf(sig.Params().At(i)))
 		}
 	}
 	for i := 0; i < sig.Results().Len(); i++ {
@@ -1386,8 +2153,14 @@ func (t *ftr) translate(fi *fnInfo) {
 		fi.deps = append(fi.deps, d)
 	}
 	var gparams []string
+	var gargs []string
 	for _, g := range fi.globals {
 		gparams = append(gparams, fmt.Sprintf("(g_%s : Bool)", g))
+		gargs = append(gargs, "g_"+g)
+	}
+	fi.fuel = f.fuel || fi.selfrec
+	if fi.fuel && !fi.selfrec {
+		gparams = append(gparams, "(fuel : Nat)")
 	}
 	rt := "Unit"
 	if len(rts) > 0 {
@@ -1399,15 +2172,36 @@ func (t *ftr) translate(fi *fnInfo) {
 	if fi.spec.recv != "" {
 		name = fi.spec.recv + "." + name
 	}
+	for _, pre := range fi.pre {
+		sb.WriteString(pre)
+		sb.WriteString("\n")
+	}
 	fmt.Fprintf(&sb, "/-- %s %s (%s:%d) -/\n", fi.spec.pkg, name, filepath.Base(pos.Filename), pos.Line)
 	all := append(gparams, params...)
-	fmt.Fprintf(&sb, "def %s %s : GM (%s) := do\n", fi.spec.lean, strings.Join(all, " "), rt)
-	sb.WriteString(indent(b.lines, 1))
+	if fi.selfrec {
+		// a self-recursive function: structural recursion on the fuel
+		pts := f.paramTypes()
+		var pn []string
+		for i := 0; i < sig.Params().Len(); i++ {
+			p := sig.Params().At(i)
+			pn = append(pn, f.names[p])
+			if f.hasOff(p) {
+				pn = append(pn, f.names[p]+"_off")
+			}
+		}
+		fmt.Fprintf(&sb, "def %s %s: Nat → %s → GM (%s)\n", fi.spec.lean, strings.Join(gparams, " ")+" ", strings.Join(pts, " → "), rt)
+		fmt.Fprintf(&sb, "  | 0, %s => .panic \"nofuel\"\n", strings.Join(underscores(len(pts)), ", "))
+		fmt.Fprintf(&sb, "  | fuel+1, %s => do\n", strings.Join(pn, ", "))
+		sb.WriteString(indent(b.lines, 2))
+	} else {
+		fmt.Fprintf(&sb, "def %s %s : GM (%s) := do\n", fi.spec.lean, strings.Join(all, " "), rt)
+		sb.WriteString(indent(b.lines, 1))
+	}
 	fi.text = sb.String()
 }
 
 func (c *ctx) emitFuncs(repo, path string) {
-	t := &ftr{c: c, all: map[*types.Func]*fnInfo{}, byName: map[string]*fnInfo{}}
+	t := &ftr{c: c, all: map[*types.Func]*fnInfo{}, byName: map[string]*fnInfo{}, tables: map[string]string{}}
 	var order []*fnInfo
 	for _, sp := range fnSpecs {
 		fi := &fnInfo{spec: sp}
@@ -1435,6 +2229,15 @@ func (c *ctx) emitFuncs(repo, path string) {
 	out.WriteString("  Whole Go functions translated from the typed AST into the Go semantics library Verif.GoSem; the lemma files\n")
 	out.WriteString("  Verif/Lemmas/Funcs/*.lean prove each one equal to the hand-written model function. Regenerated on every run.\n-/\n")
 	out.WriteString("import Verif.Base.GoSem\nset_option linter.unusedVariables false\nnamespace Verif.Funcs\nopen Verif Verif.GoSem\n\n")
+	tnames := make([]string, 0, len(t.tables))
+	for n := range t.tables {
+		tnames = append(tnames, n)
+	}
+	sort.Strings(tnames)
+	for _, n := range tnames {
+		out.WriteString(t.tables[n])
+		out.WriteString("\n")
+	}
 	emitted := map[*fnInfo]bool{}
 	var emit func(fi *fnInfo)
 	emit = func(fi *fnInfo) {
